@@ -66,11 +66,11 @@ type loopInfo struct {
 }
 
 type writeSet struct {
-	names     map[string]bool
-	allHeaps  bool
-	allGhost  bool
-	fields    map[string]map[int]bool // heap var -> fields written through a field path
-	whole     map[string]bool         // heap var written other than through a field path / fresh allocation
+	names    map[string]bool
+	allHeaps bool
+	allGhost bool
+	fields   map[string]map[int]bool // heap var -> fields written through a field path
+	whole    map[string]bool         // heap var written other than through a field path / fresh allocation
 }
 
 func (w *writeSet) add(o *writeSet) {
@@ -102,36 +102,36 @@ func (w *writeSet) add(o *writeSet) {
 }
 
 type Frame struct {
-	vc      *VC
-	fn      *ssa.Function
-	fc      *FuncContract
-	prefix  string
-	vals    map[ssa.Value]string
-	tuples  map[ssa.Value][]string
-	locs    map[ssa.Value]*Loc
-	guards  map[int]string
-	exits   map[int]*State
-	edge    map[[2]int]string
-	defers  []*deferRec
-	rets    []retRec
-	isTop   bool
-	depth   int
-	loops   map[int]*loopInfo // by header block index
-	entry   *State            // function entry state (for old())
-	curBlk  int
-	writes  map[int]*writeSet // per block (top-level frame only; inlined frames forward to parent)
-	parent  *Frame
-	fvLocs  map[*ssa.FreeVar]*Loc
-	fvVals  map[*ssa.FreeVar]string
-	closures map[ssa.Value]*closureInfo
-	callSeq map[string]int
-	rangeOf map[ssa.Value]ssa.Value // Range instr -> ranged map/string
-	phiEnv  map[*ssa.Phi]string
-	nameAllocs map[string]*ssa.Alloc
-	nameVals   map[string][]ssa.Value
+	vc          *VC
+	fn          *ssa.Function
+	fc          *FuncContract
+	prefix      string
+	vals        map[ssa.Value]string
+	tuples      map[ssa.Value][]string
+	locs        map[ssa.Value]*Loc
+	guards      map[int]string
+	exits       map[int]*State
+	edge        map[[2]int]string
+	defers      []*deferRec
+	rets        []retRec
+	isTop       bool
+	depth       int
+	loops       map[int]*loopInfo // by header block index
+	entry       *State            // function entry state (for old())
+	curBlk      int
+	writes      map[int]*writeSet // per block (top-level frame only; inlined frames forward to parent)
+	parent      *Frame
+	fvLocs      map[*ssa.FreeVar]*Loc
+	fvVals      map[*ssa.FreeVar]string
+	closures    map[ssa.Value]*closureInfo
+	callSeq     map[string]int
+	rangeOf     map[ssa.Value]ssa.Value // Range instr -> ranged map/string
+	phiEnv      map[*ssa.Phi]string
+	nameAllocs  map[string]*ssa.Alloc
+	nameVals    map[string][]ssa.Value
 	headerState map[int]*State
-	allocSizes []allocSite
-	factGuard string // when set, type-invariant facts about loaded values are assumed under this path condition
+	allocSizes  []allocSite
+	factGuard   string // when set, type-invariant facts about loaded values are assumed under this path condition
 }
 
 type closureInfo struct {
@@ -829,7 +829,11 @@ func (fr *Frame) enterLoop(li *loopInfo) (*State, string) {
 	// assume invariants
 	if li.spec != nil {
 		for _, c := range li.spec.Invariants {
-			t := fr.evalClause(c, fr.invEnv(li, st, nil), "loop invariant")
+			c := c
+			t, bound := fr.tolerate(func() string { return fr.evalClause(c, fr.invEnv(li, st, nil), "loop invariant") })
+			if !bound {
+				continue
+			}
 			vc.assume(implies(atL, t))
 		}
 	}
@@ -878,8 +882,8 @@ func (fr *Frame) backEdge(li *loopInfo, from *ssa.BasicBlock, st *State, g strin
 		lt, _ := fr.vc.binop(token.LSS, after.term, before.term, before.typ, before.typ)
 		ge, _ := fr.vc.binop(token.GEQ, before.term, fr.vc.intLitN(0, before.typ), before.typ, before.typ)
 		fr.vc.addObl(&Obligation{
-			Name:  fmt.Sprintf("%s#loop%d.decreases.from%d", fr.vc.unit, li.ordinal, from.Index),
-			Kind:  "decreases", Props: fr.props(), Guard: g, Goal: and(lt, ge),
+			Name: fmt.Sprintf("%s#loop%d.decreases.from%d", fr.vc.unit, li.ordinal, from.Index),
+			Kind: "decreases", Props: fr.props(), Guard: g, Goal: and(lt, ge),
 			Src: li.spec.Decreases.Src, File: li.spec.Decreases.File, Line: li.spec.Decreases.Line, Pos: fr.vc.eng.pos(pos),
 		})
 	}
@@ -889,7 +893,11 @@ func (fr *Frame) checkInvariant(li *loopInfo, st *State, g string, env map[*ssa.
 	vc := fr.vc
 	if li.spec != nil {
 		for k, c := range li.spec.Invariants {
-			t := fr.evalGoal(c, fr.invEnv(li, st, env), "loop invariant")
+			c := c
+			t, bound := fr.tolerate(func() string { return fr.evalGoal(c, fr.invEnv(li, st, env), "loop invariant") })
+			if !bound {
+				continue
+			}
 			label := c.Label
 			if label == "" {
 				label = fmt.Sprint(k)
@@ -899,8 +907,8 @@ func (fr *Frame) checkInvariant(li *loopInfo, st *State, g string, env map[*ssa.
 				suffix = fmt.Sprintf(".b%d", fr.top().curBlk)
 			}
 			vc.addObl(&Obligation{
-				Name:  fmt.Sprintf("%s#loop%d.inv.%s.%s%s", vc.unit, li.ordinal, label, phase, suffix),
-				Kind:  "inv." + phase, Props: fr.props(), Guard: g, Goal: t,
+				Name: fmt.Sprintf("%s#loop%d.inv.%s.%s%s", vc.unit, li.ordinal, label, phase, suffix),
+				Kind: "inv." + phase, Props: fr.props(), Guard: g, Goal: t,
 				Src: c.Src, File: c.File, Line: c.Line, Pos: vc.eng.pos(pos), Extra: vc.clauseLemmas(c),
 			})
 		}
